@@ -882,8 +882,30 @@ def part_a(tier: str) -> list[dict]:
 
 
 def part_b(tier: str) -> list[dict]:
-    """Whole-protocol simulation (E3) - to be appended by the Part B author; each obligation dict as in part_a."""
-    return []
+    """Whole-protocol simulation (E3, vf/rtsim.py): WAITING crossing SUBMIT_BATCH is produced by the scheduler's
+    delays; the runtime's own assertion never fires (a dying node loop is a violation), counters stay in bounds
+    on every node, and at quiescence a flat server believes every worker idle with zero outstanding tasks; every
+    created task was forwarded to exactly one worker (channel log)."""
+    from harness.rt_entry import ob
+    obs = []
+    if tier == 'quick':
+        for topo, shapes in (('flat2', ('map3', 'nested', 'next3')), ('flat1', ('map3',)), ('mgr2x1', ('map2',))):
+            for sh in shapes:
+                obs.append(ob('B/msg/%s/%s/K1' % (topo, sh), topo, [sh], 'counters', 1, 200))
+        obs.append(ob('B/msg/flat2/cancel_map/K1', 'flat2', ['cancel_map'], 'counters', 1, 200))
+    else:
+        for topo in ('flat1', 'flat2', 'flat3'):
+            for sh in ('map2', 'map3', 'next3', 'nested', 'nested_map', 'two_rev', 'cancel_map', 'cancel_after_next',
+                       'cancel_nested'):
+                obs.append(ob('B/msg/%s/%s/K2' % (topo, sh), topo, [sh], 'counters', 2, 3000, maxrank=3))
+        for topo in ('mgr2x1', 'mgr1x2', 'mgr2x2'):
+            for sh in ('map2', 'map3', 'nested'):
+                obs.append(ob('B/msg/%s/%s/K2' % (topo, sh), topo, [sh], 'counters', 2, 3000))
+        obs.append(ob('B/msg/flat2/two-clients/K2', 'flat2', ['map3', 'map2'], 'counters', 2, 3000))
+    return obs
+
+
+from harness.rt_entry import sim  # noqa: E402,F401  (entry function of the part B obligations)
 
 
 def obligations(tier: str) -> list[dict]:
